@@ -540,6 +540,9 @@ func (st *state) allot(x *big.Int, ps []gen.Allot) ([]*big.Int, *Err) {
 	one := big.NewRat(1, 1)
 	if rem >= 0 {
 		rats[rem] = new(big.Rat).Sub(one, sum)
+		if rats[rem].Sign() < 0 {
+			return nil, fail(EAllotmentSum, "portions add up to %s next to a remaining clause", sum)
+		}
 	} else if sum.Cmp(one) != 0 {
 		return nil, fail(EAllotmentSum, "sum %s", sum)
 	}
